@@ -25,7 +25,7 @@ type bnCase struct {
 
 func bignumScenarios(tier string) []engine.Scenario {
 	var scs []engine.Scenario
-	exhaust, maxDeg := 6, 31
+	exhaust, maxDeg := 5, 31
 	if tier == "thorough" {
 		exhaust, maxDeg = 7, 63
 	}
